@@ -10,6 +10,7 @@ gen_trans.register('vmm_map.json')
 gen_trans.register('vmm_fault.json')  # pageFaultHandler with the closure passed to walk, raw-pointer loads/stores and stateful seams (Gen/Trans_vmm_fault.v, Vmm/FaultTrans.v)
 gen_trans.register('vmm_zero.json')   # reserveZeroedFrame (state variables ReservedZeroedFrame / protectReservedZeroedPage assigned; Gen/Trans_vmm_zero.v, Vmm/ZeroTrans.v)
 gen_trans.register('vmm_gpf.json')    # generalProtectionFaultHandler (printing seams, panic as a recorded call that ends the run; Gen/Trans_vmm_gpf.v, Vmm/GpfTrans.v)
+gen_trans.register('kernel_mem.json')  # byte-memory mode: kernel.Memset / kernel.Memcopy, the overlaid slice as a window (Gen/Trans_kernel_mem.v, Kernel/MemUtilTrans.v, Vmm/MemsetSeam.v)
 from pt_common import LO, P, RW, US, HUGE, COW, NX, M64, M36
 
 
@@ -18,7 +19,8 @@ class C06(flow.Spec):
     props_files = ['theories/Props/C06.v', 'theories/Props/C06_examples.v', 'theories/Props/C06_mem.v', 'theories/Props/C06_mem_examples.v',
                    'theories/Props/C06_fault_trans.v', 'theories/Props/C06_fault_trans_examples.v',
                    'theories/Props/C06_zero_trans.v', 'theories/Props/C06_zero_trans_examples.v',
-                   'theories/Props/C06_gpf_trans.v', 'theories/Props/C06_gpf_trans_examples.v']
+                   'theories/Props/C06_gpf_trans.v', 'theories/Props/C06_gpf_trans_examples.v',
+                   'theories/Props/C06_mem_trans.v', 'theories/Props/C06_mem_trans_examples.v']
     model_targets = ['theories/Vmm/Pt.vo', 'theories/Kernel/MemUtil.vo']
     pkg = 'mm/vmm'
     harness = pc.HARNESS + [os.path.join(pc.H, 'zz_verif_c06_test.go')]
